@@ -8,7 +8,8 @@ Cases == JsonDeserialize(IOEnv.OBS_FILE)
 OInit == i \in 1..Len(Cases)
 ONext == UNCHANGED i
 C == Cases[i]
-Cfg == [order |-> C.cfg.order, res |-> C.cfg.res, own |-> C.cfg.own, fail |-> C.cfg.fail]
+Cfg == [n |-> C.cfg.n, order |-> C.cfg.order, res |-> C.cfg.res, own |-> C.cfg.own, fail |-> C.cfg.fail]
+E == El(Cfg)
 S == C.seq
 C14_NoError == S.err = ""
 C14_Max == S.err = "" => \A e \in E : S.max[e + 1] = TrueMax(Cfg, e)
@@ -24,5 +25,6 @@ C14_InServiceRestored == S.restored /\ S.seen_ok
 C15_ParallelEqualsSequential == C.has_par => (C.par.err = "" /\ S.err = "" /\
      C.par.max = S.max /\ C.par.min = S.min /\ C.par.overload = S.overload /\ C.par.n0 = S.n0 /\
      C.par.busmax = S.busmax /\ C.par.busmin = S.busmin /\ C.par.keys = S.keys /\
-     (\A e \in E : TrueMax(Cfg, e) # NaNv => CauseOK(Cfg, e, C.par.cause[e + 1])) /\ C.par.restored)
+     (\A e \in E : TrueMax(Cfg, e) # NaNv => (C.par.cause[e + 1] = S.cause[e + 1] /\ C.par.cause_is_line[e + 1])) /\ C.par.restored /\ C.par.seen_ok)
+\* (the cause of an element without any valid case is uninitialised memory in both paths and is not compared)
 =============================================================================
